@@ -28,6 +28,18 @@ def T(clock):
     return clock * 10
 
 
+def late_column_write(c, rng):
+    """A deleted row whose entry is NEWER than its delete (a column written with a later write time than the DELETE's), a
+    vacuum whose cutoff lies between the two times, then the key is inserted again: the table stays writable."""
+    k = "i:%d" % rng.choice([90, 91])
+    return [{"op": "stmt", "c": c, "id": "lc1", "kind": "ins", "key": k, "cols": {"a": "t:lc1", "b": "t:lc1"}, "wt": 961},
+            {"op": "stmt", "c": c, "id": "lc2", "kind": "upd", "key": k, "cols": {"a": "t:lc2"}, "wt": 965},
+            {"op": "stmt", "c": c, "id": "lc3", "kind": "del", "key": k, "cols": {}, "wt": 963},
+            {"op": "rows", "c": c}, {"op": "vacuum", "c": c, "cutoff": 964}, {"op": "rows", "c": c, "same": "C09"},
+            {"op": "stmt", "c": c, "id": "lc4", "kind": "ins", "key": k, "cols": {"a": "t:lc4"}, "wt": 970},
+            {"op": "rows", "c": c}, {"op": "open", "c": "lcr%d" % rng.randrange(1000), "mode": "ro", "perm": rng.randrange(6)}]
+
+
 def build(prop, beh, idx, rng, crash_k=None):
     epn = rng.choice([2, 2, 3, 4096])
     cache = rng.choice([0, 0, 8])
@@ -154,8 +166,9 @@ def build(prop, beh, idx, rng, crash_k=None):
                       {"op": "stmt", "c": wv, "id": "z%d" % nst, "kind": "ins", "key": "i:%d" % (60 + nst), "cols": {"a": "t:z"}, "wt": 950 + nst},
                       {"op": "rows", "c": wv}]
         steps += [{"op": "open", "c": "m1", "mode": "rw", "perm": rng.randrange(6), "when": 960},
-                  {"op": "open", "c": fresh(), "mode": "ro", "perm": rng.randrange(6)},
-                  {"op": "vacuum", "c": "m1", "cutoff": 2000}, {"op": "rows", "c": "m1", "same": "C09"},
+                  {"op": "open", "c": fresh(), "mode": "ro", "perm": rng.randrange(6)}]
+        steps += late_column_write("m1", rng)
+        steps += [{"op": "vacuum", "c": "m1", "cutoff": 2000}, {"op": "rows", "c": "m1", "same": "C09"},
                   {"op": "dump", "c": "m1", "tag": "vacdump"}, {"op": "reach"},
                   {"op": "open", "c": fresh(), "mode": "ro"}, {"op": "bucket"}]
     if cache > 0:
